@@ -49,6 +49,8 @@ def run(ch, build):
     for su in ([(1, 1, 1), (3, 4, 1)] if ch.quick() else hist.SUITES):
         # every triple that differs from the proposal in exactly one algorithm (the silent downgrade / swap)
         near = [tuple(su[:k]) + (v,) + tuple(su[k + 1:]) for k in range(3) for v in vals if v != su[k]]
+        # ... including the proposed number with bit 5 set (another 6-bit algorithm number) and with the reserved bits 7:6 set
+        near += [tuple(su[:k]) + (su[k] | hi,) + tuple(su[k + 1:]) for k in range(3) for hi in (0x20, 0x40, 0x80, 0xc0, 0xe0)]
         for t in list(dict.fromkeys(triples + near + [tuple(su)])):
             bmc = conn.default_bmc(seed=4, suites=[[100, su[0], su[1], su[2]]])
             # Open Session Response: datagram = 16 header + payload; algorithms at payload offsets 16, 24, 32
@@ -114,7 +116,8 @@ def run(ch, build):
         if any(r.get("panic") for r in out["steps"]):
             ch.violation(dict(desc, kind="panic"), {"scenario": scn, "panic": [r.get("panic") for r in out["steps"]]}); continue
         hs.tie_open(ch, "c12", scn, scn["steps"][0], res, mo, scn["suite"], desc)
-        same = tuple(scn["triple"]) == tuple(scn["suite"])
+        # (bits 7:6 of an algorithm byte are reserved and ignored on receipt: the algorithm number is the low six bits)
+        same = tuple((x & 0x3f) if isinstance(x, int) else x for x in scn["triple"]) == tuple(scn["suite"])
         if res["err"] == "nil":
             s = res["session"]
             if not same or (int(s["auth"]), int(s["integ"]), int(s["conf"])) != tuple(scn["suite"]):
